@@ -57,3 +57,20 @@ Definition update_client_old (bt : N) (cs : cstate) (st : cstore) (h : header) :
        | (st', RErr k) => (st', RErr k)
        | (st', RPanic) => (st', RPanic)
        end.
+
+(** ** three validators (limit 2) growing to eight (limit 5), epoch 4, created at height 8: the witness that the
+    recent-signer window is the KEPT window when the set grows by more than two limit steps
+    (Refuted/C09_refuted.v, [C09_window_without_kept_refuted]) *)
+Definition vH := addr x11.
+Definition vals3 := [vA; vB; vC].
+Definition vals8 := [vA; vB; vC; vD; vE; vF; vG; vH].
+Definition g3 : header := mk_header 8 (zeros 32) vA 1 vals3.
+Definition cs3 : cstate :=
+  {| c_header := g3; c_chain := 56; c_epoch := 4; c_interval := 3; c_vals := vals3; c_contract := []; c_trust := 1000000000 |}.
+Definition c3 : consstate := {| cs_time := h_time g3; cs_height := hheight g3; cs_root := h_root g3 |}.
+Definition w9 := child g3 vB 1.                                   (* 9: switch to the pending list (the same three) *)
+Definition w10 := child w9 vC 1.                                  (* 10 sealed by C *)
+Definition w11 := child w10 vA 1.                                 (* 11: the entry of 9 leaves the store *)
+Definition w12 := mk_header 12 (toy_hash w11) vB 1 vals8.         (* 12: epoch header announcing eight validators; entry of 10 leaves *)
+Definition w13 := child w12 vA 1.                                 (* 13: the eight come into force (13 mod 4 = 3/2), limit 5 *)
+Definition w14 := child w13 vC 1.                                 (* 14 sealed by C again: 10 is one of the last four blocks *)
